@@ -29,11 +29,11 @@ OPN = {1: "history_backward", 2: "history_forward", 3: "go_to_history", 4: "auto
        11: "set_cursor_position", 12: "cursor_left", 13: "cursor_right", 14: "validate", 15: "accept",
        16: "reset", 17: "load_history_if_not_yet_loaded", 18: "population_step", 19: "population_all",
        20: "set_enable_history_search", 21: "append_to_history", 22: "new_session_same_backend",
-       23: "apply_search->(index,cursor)", 24: "apply_search", 25: "selection"}
+       23: "apply_search->(index,cursor)", 24: "apply_search", 25: "selection", 26: "loader_thread_step"}
 NAV = (1, 2, 3, 4, 5, 6, 11, 12, 13, 20, 23, 25)
 HIST_STEP = (1, 2, 4, 5)
 EDIT = (7, 8, 9, 10)
-POP = (18, 19)
+POP = (18, 19, 26)
 BIG = 10 ** 9
 
 
@@ -126,7 +126,47 @@ def make_history(strings, path=None):
     return GatedHistory(path if path else strings)
 
 
+class ThreadCtl:
+    """Drives the loader thread of a real ThreadedHistory one item at a time:
+    the inner history's load_history_strings() waits for a permit before it
+    hands out each item and once more before it ends."""
+
+    def __init__(self):
+        import threading
+        self.sem = threading.Semaphore(0)
+        self.free = False
+        self.granted = 0
+        self.n_items = None       # size of the snapshot the thread took
+        self.prep_at_thread_start = None
+
+    def wait(self):
+        if not self.free:
+            self.sem.acquire(timeout=20)
+
+    def release_all(self):
+        self.free = True
+        for _ in range(64):
+            self.sem.release()
+
+
+def make_threaded_history(strings, path, ctl):
+    """ThreadedHistory(InMemoryHistory | FileHistory) with a gated inner load"""
+    from prompt_toolkit.history import FileHistory, InMemoryHistory, ThreadedHistory
+    base = FileHistory if path else InMemoryHistory
+
+    class GatedInner(base):
+        def load_history_strings(self):
+            items = list(super().load_history_strings())
+            ctl.n_items = len(items)
+            for item in items:
+                ctl.wait()
+                yield item
+            ctl.wait()
+    return ThreadedHistory(GatedInner(path if path else strings))
+
+
 def storage_of(h):
+    h = getattr(h, "history", h)          # ThreadedHistory -> its inner history
     """the stored history, oldest first: InMemoryHistory's list, or what a NEW
     FileHistory object reads back from the file"""
     if hasattr(h, "_storage"):
@@ -202,7 +242,42 @@ def cleanup_history_files():
         _FILE["dir"] = None
 
 
-async def impl_buffer_case(case, slow=False, file_backend=False):
+async def settle_threaded(b, h, ctl, track):
+    """ThreadedHistory: wait until the loader thread has done what it was
+    allowed to do and the Buffer's load() has consumed what is available.
+    Only the implementation's own state is consulted."""
+    import time
+    t0 = time.time()
+    while time.time() - t0 < 3.0:
+        await asyncio.sleep(0)
+        ok = True
+        if h._load_thread is not None:
+            if ctl.prep_at_thread_start is None:
+                ctl.prep_at_thread_start = track.get("prep_at_task", 0)
+            if ctl.n_items is None:
+                ok = False
+            else:
+                want_items = min(ctl.granted, ctl.n_items)
+                have = len(h._loaded_strings) - (h._num_prepended - ctl.prep_at_thread_start)
+                if have != want_items or bool(h._loaded) != (ctl.granted > ctl.n_items):
+                    ok = False
+        lt = b._load_history_task
+        if ok and lt is not None and not lt.cancelled() and track.get("task") is lt:
+            if h._load_thread is None:
+                ok = False
+            else:
+                avail = len(h._loaded_strings) - (h._num_prepended - track["prep_at_task"])
+                got = len(b._working_lines) - track["lines_at_task"]
+                if got != avail or (h._loaded and not lt.done()):
+                    ok = False
+        if ok:
+            await spin(3)
+            return True
+        await asyncio.sleep(0.0005)
+    return False
+
+
+async def impl_buffer_case(case, slow=False, file_backend=False, threaded=False):
     """-> list of snapshots, one per observed op.  slow: the validator's
     validate_async is gated; the gate is closed while operations flagged
     "deferred" run (their scheduled validation starts but stays in flight) and
@@ -212,7 +287,7 @@ async def impl_buffer_case(case, slow=False, file_backend=False):
     from prompt_toolkit.document import Document
     from prompt_toolkit.filters import Condition
     from prompt_toolkit.key_binding.bindings.named_commands import get_by_name
-    storage, ehs, vwt, keep, rules, ops = case
+    storage, ehs, vwt, keep, rules, ops = case[:6]
     flags = {"ehs": bool(ehs)}
     rets = []
 
@@ -220,6 +295,8 @@ async def impl_buffer_case(case, slow=False, file_backend=False):
         rets.append(buff.text)
         return bool(keep)
     path = None
+    ctl = ThreadCtl() if threaded else None
+    track = {}
     if file_backend:
         # the initial history is written by the real FileHistory.store_string
         from prompt_toolkit.history import FileHistory
@@ -227,7 +304,10 @@ async def impl_buffer_case(case, slow=False, file_backend=False):
         fh = FileHistory(path)
         for x in storage:
             fh.store_string(unS(x))
-    h = make_history([unS(x) for x in storage], path)
+    if threaded:
+        h = make_threaded_history([unS(x) for x in storage], path, ctl)
+    else:
+        h = make_history([unS(x) for x in storage], path)
     gate = asyncio.Event() if slow else None
     with set_app(get_dummy_app()):
         b = Buffer(history=h, validator=None if rules is None else make_validator(rules, gate),
@@ -275,7 +355,17 @@ async def impl_buffer_case(case, slow=False, file_backend=False):
                     elif k == 16:
                         b.reset(Document(unS(op[1]), op[2]), append_to_history=bool(op[3]))
                     elif k == 17:
+                        before = b._load_history_task
                         b.load_history_if_not_yet_loaded()
+                        if threaded and b._load_history_task is not before:
+                            track.update(task=b._load_history_task, prep_at_task=h._num_prepended,
+                                         lines_at_task=len(b._working_lines))
+                    elif k == 26:
+                        if threaded and h._load_thread is not None and not h._loaded:
+                            ctl.granted += 1
+                            ctl.sem.release()
+                    elif k in (18, 19) and threaded:
+                        pass
                     elif k == 18:
                         h.grant(1)
                     elif k == 19:
@@ -291,7 +381,15 @@ async def impl_buffer_case(case, slow=False, file_backend=False):
                             b.exit_selection()
                     elif k == 22:
                         # next run of the program: new History object on the same storage, new buffer state
-                        h = make_history(storage_of(h), path)
+                        if threaded:
+                            ctl.release_all()
+                            if h._load_thread is not None:
+                                h._load_thread.join(5)
+                            ctl = ThreadCtl()
+                            track.clear()
+                            h = make_threaded_history(storage_of(h), path, ctl)
+                        else:
+                            h = make_history(storage_of(h), path)
                         b.history = h
                         b.reset()
                     elif k == 24:
@@ -306,7 +404,11 @@ async def impl_buffer_case(case, slow=False, file_backend=False):
                         raise ValueError(k)
                 except (AssertionError, IndexError) as e:
                     status = exc_status(e)
-                if gate is not None:
+                if threaded:
+                    await spin()
+                    if not await settle_threaded(b, h, ctl, track):
+                        status = 97         # the loader did not reach the expected state in time
+                elif gate is not None:
                     await spin()            # scheduled tasks start (and wait at the gate)
                     if flag < 2:
                         gate.set()
@@ -319,6 +421,10 @@ async def impl_buffer_case(case, slow=False, file_backend=False):
         finally:
             if gate is not None:
                 gate.set()
+            if threaded:
+                ctl.release_all()
+                if h._load_thread is not None:
+                    h._load_thread.join(5)
             if b._load_history_task is not None:
                 b._load_history_task.cancel()
             await spin(3)
@@ -376,7 +482,7 @@ def key_op(key):
     return [7, S(name * a)]
 
 
-async def impl_session_case(script):
+async def impl_session_case(script, threaded=False):
     """script = (storage, ehs, vwt, rules, prompts) with prompts = [(default, typeahead keys, live keys)].
     Returns (case, results): the model case is assembled while the script runs
     (a new prompt is started whenever the previous one returned)."""
@@ -388,7 +494,12 @@ async def impl_session_case(script):
     storage, ehs, vwt, rules, prompts = script
     ops, out = [], []
     from prompt_toolkit.history import InMemoryHistory
-    h = InMemoryHistory([unS(x) for x in storage])
+    ctl, track = None, {}
+    if threaded:
+        ctl = ThreadCtl()
+        h = make_threaded_history([unS(x) for x in storage], None, ctl)
+    else:
+        h = InMemoryHistory([unS(x) for x in storage])
     with create_pipe_input() as inp:
         with create_app_session(input=inp, output=DummyOutput()):
             session = PromptSession(history=h, validator=None if rules is None else make_validator(rules),
@@ -406,9 +517,14 @@ async def impl_session_case(script):
                 for _ in range(400):
                     await asyncio.sleep(0)
                     lt = b._load_history_task
-                    if task.done() or (app._is_running and lt is not None and lt.done()):
+                    if task.done() or (app._is_running and lt is not None and (threaded or lt.done())):
                         break
                 await spin()
+                if threaded and not task.done():
+                    lt = b._load_history_task
+                    # the buffer was reset to one line; no append can have happened since load() started
+                    track.update(task=lt, prep_at_task=h._num_prepended, lines_at_task=1)
+                    await settle_threaded(b, h, ctl, track)
                 ops.append([2, [16, S(default), len(default), 0]])
                 for k in ta:
                     ops.append([2, key_op(k)])
@@ -422,11 +538,24 @@ async def impl_session_case(script):
                         out.append(snapshot(b, h, exc_status(e), None))
                         broken = True
                     continue
-                ops.append([2, [17]])
-                ops.append([1, [19]])
+                if threaded:
+                    ops.append([1, [17]])
+                else:
+                    ops.append([2, [17]])
+                    ops.append([1, [19]])
                 out.append(snapshot(b, h, 0, None))
                 for k in live:
                     status, ret = 0, None
+                    if k[0] == "@thread":
+                        # the loader thread reads one more item
+                        if h._load_thread is not None and not h._loaded:
+                            ctl.granted += 1
+                            ctl.sem.release()
+                        await spin()
+                        await settle_threaded(b, h, ctl, track)
+                        ops.append([1, [26]])
+                        out.append(snapshot(b, h, 0, None))
+                        continue
                     for kp in parse_keys(key_bytes(k)):
                         app.key_processor.feed(kp)
                     try:
@@ -434,6 +563,8 @@ async def impl_session_case(script):
                     except (AssertionError, IndexError) as e:
                         status = exc_status(e)
                     await spin()
+                    if threaded and not task.done():
+                        await settle_threaded(b, h, ctl, track)
                     if status == 0 and task.done():
                         ret = task.result()
                     ops.append([1, key_op(k)])
@@ -452,7 +583,11 @@ async def impl_session_case(script):
                         await asyncio.wait_for(task, 3)
                     except BaseException:  # noqa
                         pass
-    case = [storage, ehs, vwt, 1, rules if rules is not None else [], ops]
+    if threaded:
+        ctl.release_all()
+        if h._load_thread is not None:
+            h._load_thread.join(5)
+    case = [storage, ehs, vwt, 1, rules if rules is not None else [], ops] + ([1] if threaded else [])
     return case, out
 
 
@@ -483,8 +618,11 @@ class Runner:
 
 def wire(case):
     """python case -> the sx value given to the model"""
-    storage, ehs, vwt, keep, rules, ops = case
-    return [storage, ehs, vwt, keep, None if rules is None else [rules], ops]
+    storage, ehs, vwt, keep, rules, ops = case[:6]
+    w = [storage, ehs, vwt, keep, None if rules is None else [rules], ops]
+    if len(case) > 6 and case[6]:
+        w.append(1)                      # ThreadedHistory (over InMemoryHistory: 1, over FileHistory: 2 - the model does not care)
+    return w
 
 
 # --------------------------------------------------------------------------
@@ -497,7 +635,8 @@ def starts(a, p):
 
 def oracle_case(case, results):
     """yields (clause, family, opname, detail) for every violated clause"""
-    storage, ehs0, vwt, keep, rules, ops = case
+    storage, ehs0, vwt, keep, rules, ops = case[:6]
+    threaded = len(case) > 6 and bool(case[6])
     init = [0, None, [[]], 0, 0, None, None, 0, [], list(storage)]
     obs = [i for i, (f, o) in enumerate(ops) if f & 1]
     if len(obs) != len(results):
@@ -523,14 +662,16 @@ def oracle_case(case, results):
                 ehs = bool(o[1])
         ehs_before = ehs if k != 20 else None
         # --- browsing never alters the stored history
+        NAVX = NAV + (14,) + (() if threaded else (17,))     # with a ThreadedHistory starting a load may deliver entries at once
+        POPX = POP + ((17,) if threaded else ())
         if kinds <= set(NAV + EDIT + POP + (14, 17)):
             if sto != sto0:
                 yield ("browse_pure: stored history changed by %s" % name, "storage", name, (sto0, sto))
             # (get_strings() may at any time start to show the whole stored history: loading is lazy)
-            if kinds <= set(NAV + EDIT + (14, 17)) and gs != gs0 and gs != sto:
+            if kinds <= set(NAVX + EDIT) and gs != gs0 and gs != sto:
                 yield ("browse_pure: History.get_strings() changed by %s" % name, "get_strings", name, (gs0, gs))
         # --- working lines change only at the working index and only by edits
-        if kinds <= set(NAV + (14, 17)) and wl != wl0:
+        if kinds <= set(NAVX) and wl != wl0:
             yield ("edits_kept: working lines changed by navigation (%s)" % name, "nav-changes-lines", name, (wl0, wl))
         if single and k in EDIT and st == 0:
             if len(wl) != len(wl0) or any(a != c for j, (a, c) in enumerate(zip(wl0, wl)) if j != wi0 % max(1, len(wl0))):
@@ -541,7 +682,7 @@ def oracle_case(case, results):
         if single and k in EDIT and st == 0 and text1 != text0 and hst is not None:
             yield ("prefix: a text edit must reset the history search text", "stale-prefix", name, (hst0, hst))
         # --- population never changes what is displayed, only prepends
-        if kinds <= set(POP) and st == 0:
+        if kinds <= set(POPX) and st == 0:
             add = len(wl) - len(wl0)
             if add < 0 or wl[add:] != wl0 or wi != wi0 + add:
                 yield ("population_safe: population must only prepend entries and shift the index", "prepend", name, (wl0, wi0, wl, wi))
@@ -588,7 +729,8 @@ def oracle_case(case, results):
                 skip = (not text0) or (sto0 and sto0[-1] == text0)
                 exp = sto0 if skip else sto0 + [text0]
                 if sto != exp:
-                    fam = "history-not-loaded" if gs0 != sto0 else "history-loaded"
+                    fam = ("threaded-nothing-loaded" if threaded and gs0 == [] else
+                           "history-not-loaded" if gs0 != sto0 else "history-loaded")
                     yield ("accept: history must become %r, got %r (text %r; appended exactly once unless empty or equal to the newest entry)"
                            % ([unS(x) for x in exp], [unS(x) for x in sto], unS(text0)), fam, name, (sto0, sto))
                 if not keep and (wl != [[]] or wi != 0 or cur != 0):
@@ -600,7 +742,8 @@ def oracle_case(case, results):
             skip = (not t) or (sto0 and sto0[-1] == t)
             exp = sto0 if skip else sto0 + [t]
             if sto != exp:
-                fam = "history-not-loaded" if gs0 != sto0 else "history-loaded"
+                fam = ("threaded-nothing-loaded" if threaded and gs0 == [] else
+                           "history-not-loaded" if gs0 != sto0 else "history-loaded")
                 yield ("accept: history must become %r, got %r (text %r; appended exactly once unless empty or equal to the newest entry)"
                        % ([unS(x) for x in exp], [unS(x) for x in sto], unS(t)), fam, name, (sto0, sto))
         # --- reset: clean entry list; after full population = history ++ [new]
@@ -621,7 +764,7 @@ def oracle_case(case, results):
         if k == 16 and st == 0:
             if wl != [op[1]] or wi != 0 or cur != op[2] or hst is not None:
                 yield ("reset_clean: after reset the entry list must be [new text]", "reset", name, (wl, wi, cur))
-        if k == 19 and st == 0 and clean_text is not None and load_started:
+        if k == 19 and st == 0 and clean_text is not None and load_started and not threaded:
             if wl != gs + [clean_text] or sto != gs:
                 yield ("reset_clean: after reset and population the entries must be history ++ [new]", "populated", name, (gs, wl))
         last = (op, prev, after) if single else None
@@ -840,6 +983,58 @@ def gen_file_cases(chk):
     return cases
 
 
+def gen_threaded_cases(chk):
+    """A real ThreadedHistory(InMemoryHistory) (7th element 1) or ThreadedHistory(FileHistory) (2) behind the
+    Buffer; op 26 lets the loader thread read one more item (or finish), entries arrive while browsing, appends
+    happen meanwhile, several prompts on one History object."""
+    rng = chk.rng
+    thorough = chk.tier == "thorough"
+    cases = []
+    for kind in (1, 2):
+        for keep in (0, 1):
+            for storage in (["x"], ["a", "b", "x"], []):
+                st = [S(x) for x in storage]
+                load = [[17]] + [[26]] * (len(storage) + 1)
+                nxt = ([[16, S(""), 0, 0]] if keep else []) + [[17]]
+                # several prompts: the same line twice in a row, another one, the first entry again, browse and accept
+                ops = list(load)
+                for t in ("make", "make", "ls", "x"):
+                    ops += [[10, S(t)], [15]] + nxt
+                ops += [[4, 1, 0], [4, 1, 0], [15]] + nxt
+                cases.append([st, 0, 0, keep, None, fl(ops), kind])
+                # entries arriving while browsing, an append meanwhile
+                ops = [[17], [26], [4, 1, 0], [10, S("new")], [21], [26], [4, 1, 0], [26], [26], [4, 2, 0], [15]] + nxt + [[4, 1, 0], [4, 1, 0]]
+                cases.append([st, 0, 0, keep, None, fl(ops), kind])
+                # accept before anything is loaded
+                cases.append([st, 0, 0, keep, None, fl([[10, S("x")], [15]] + nxt + [[26]] * (len(storage) + 2) + [[10, S("x")], [15]]), kind])
+    for _ in range(500 if thorough else 70):
+        ops = []
+        for _ in range(rng.randint(4, 22)):
+            r = rng.random()
+            if r < 0.18:
+                ops.append([17])
+            elif r < 0.42:
+                ops.append([26])
+            elif r < 0.52:
+                ops.append([10, S(rng.choice(["a", "b", "ab", "x", "make", ""]))])
+            elif r < 0.64:
+                ops.append([15])
+            elif r < 0.70:
+                ops.append([16, S(rng.choice(["", "a"])), 0, rng.choice([0, 0, 1])])
+            elif r < 0.73:
+                ops.append([22])
+            elif r < 0.76:
+                ops.append([21])
+            else:
+                o = rand_buffer_op(rng, True)
+                if o[0] in (18, 19):
+                    o = [26]
+                ops.append(o)
+        storage = [S(rng.choice(["a", "b", "ab", "x", "a\nb"])) for _ in range(rng.choice([0, 1, 2, 3, 4]))]
+        cases.append([storage, rng.randint(0, 1), rng.randint(0, 1), rng.randint(0, 1), rand_rules(rng), fl(ops), rng.choice([1, 1, 2])])
+    return cases
+
+
 def gen_slow_cases(chk):
     """validate-while-typing with a validator that is still running when the
     next operations arrive (flag 3 = observed, no event-loop settling after it)"""
@@ -897,6 +1092,39 @@ def rand_key(rng, allow_bad_arg=True):
     return ("enter", None)
 
 
+def gen_threaded_session_scripts(chk):
+    """several prompts on one PromptSession over a real ThreadedHistory; '@thread' lets the loader thread
+    read one more item between keys"""
+    rng = chk.rng
+    thorough = chk.tier == "thorough"
+    TH = ("@thread", None)
+    scripts = []
+
+    def typed(t):
+        return [(ch, None) for ch in t] + [("enter", None)]
+    # the same line twice in a row, another one, the oldest again, browse and accept
+    scripts.append(([S("x")], 0, 0, None,
+                    [("", [], [TH, TH] + typed("make")), ("", [], typed("make")), ("", [], typed("ls")),
+                     ("", [], typed("x")), ("", [], [("up", None), ("up", None), ("enter", None)])]))
+    scripts.append(([S("a"), S("b")], 0, 1, None,
+                    [("", [], [("up", None), TH, ("up", None), TH, ("up", None), TH, ("up", None), ("enter", None)]),
+                     ("", [], [("up", None), ("enter", None)]), ("", [], [("up", None), ("up", None), ("enter", None)])]))
+    for _ in range(250 if thorough else 35):
+        storage = rand_storage(rng, 4)
+        storage = [x for x in storage]
+        prompts = []
+        for _ in range(rng.randint(2, 5)):
+            live = []
+            for _ in range(rng.randint(1, 9)):
+                live.append(TH if rng.random() < 0.3 else rand_key(rng, False))
+            live = [k for k in live if k[0] != "enter"]
+            if rng.random() < 0.85:
+                live.append(("enter", None))
+            prompts.append((rng.choice(["", "", "a"]), [], live))
+        scripts.append((storage, rng.randint(0, 1), rng.randint(0, 1), rand_rules(rng), prompts))
+    return scripts
+
+
 def gen_session_scripts(chk):
     rng = chk.rng
     thorough = chk.tier == "thorough"
@@ -945,8 +1173,8 @@ def fmt_ops(ops, n=8):
 
 
 def describe_case(case):
-    storage, ehs, vwt, keep, rules, ops = case
-    return "history=%r ehs=%d validate_while_typing=%d keep_text=%d validator=%r ops=[%s]" % (
+    storage, ehs, vwt, keep, rules, ops = case[:6]
+    return ("ThreadedHistory " if len(case) > 6 and case[6] else "") + "history=%r ehs=%d validate_while_typing=%d keep_text=%d validator=%r ops=[%s]" % (
         [unS(x) for x in storage], ehs, vwt, keep, rules, fmt_ops(ops, 12))
 
 
@@ -959,11 +1187,15 @@ def run_impl(runner, level, item):
             return item, runner.run(lambda: impl_buffer_case(item, slow=True))
         if level == "buffer-file":
             return item, runner.run(lambda: impl_buffer_case(item, file_backend=True))
+        if level == "buffer-threaded":
+            return item, runner.run(lambda: impl_buffer_case(item, threaded=True, file_backend=bool(item[6] == 2)), 30)
+        if level == "session-threaded":
+            return runner.run(lambda: impl_session_case(item, threaded=True), 30)
         return runner.run(lambda: impl_session_case(item), 20)
     except Hang:
-        if level in ("buffer", "buffer-slow", "buffer-file"):
+        if level in ("buffer", "buffer-slow", "buffer-file", "buffer-threaded"):
             return item, [["HANG"]]
-        return [item[0], item[1], item[2], 1, item[3] if item[3] is not None else [], []], [["HANG"]]
+        return [item[0], item[1], item[2], 1, item[3] if item[3] is not None else [], []] + ([1] if level == "session-threaded" else []), [["HANG"]]
 
 
 def main(tier):
@@ -992,6 +1224,12 @@ def main(tier):
         cases.append(case); results.append(res); levels.append("buffer-file")
     dist["file_history_sessions"] = len(fcases)
     cleanup_history_files()
+    tcases = gen_threaded_cases(chk)
+    for c in tcases:
+        case, res = run_impl(runner, "buffer-threaded", c)
+        cases.append(case); results.append(res); levels.append("buffer-threaded")
+    dist["threaded_history_sessions"] = len(tcases)
+    cleanup_history_files()
     scases = gen_slow_cases(chk)
     for c in scases:
         case, res = run_impl(runner, "buffer-slow", c)
@@ -1002,6 +1240,12 @@ def main(tier):
         case, res = run_impl(runner, "session", sc)
         cases.append(case); results.append(res); levels.append("session")
         nkeys += len(res)
+    tscripts = gen_threaded_session_scripts(chk)
+    for sc in tscripts:
+        case, res = run_impl(runner, "session-threaded", sc)
+        cases.append(case); results.append(res); levels.append("session-threaded")
+        nkeys += len(res)
+    dist["threaded_session_scripts"] = len(tscripts)
     runner.close()
     dist["session_scripts"] = len(scripts)
     dist["session_observed_keys"] = nkeys
